@@ -60,20 +60,36 @@ func pctDecode(s string, strict bool) ([]byte, bool) {
 }
 
 // normMediatype: case- and whitespace-insensitive form with the droppable defaults removed.
+// Quoted strings are opaque: their bytes are kept as they are (case and white space inside them
+// are part of the parameter value) and a ; inside them does not separate parameters.
 func normMediatype(mt string) string {
+	var parts []string
 	var b strings.Builder
 	for i := 0; i < len(mt); i++ {
 		c := mt[i]
-		if c == ' ' || c == '\t' || c == '\n' || c == '\r' {
-			continue
+		switch {
+		case c == '"':
+			b.WriteByte(c)
+			for i++; i < len(mt); i++ {
+				b.WriteByte(mt[i])
+				if mt[i] == '\\' && i+1 < len(mt) {
+					i++
+					b.WriteByte(mt[i])
+				} else if mt[i] == '"' {
+					break
+				}
+			}
+		case c == ';':
+			parts = append(parts, b.String())
+			b.Reset()
+		case c == ' ' || c == '\t' || c == '\n' || c == '\r':
+		case c >= 'A' && c <= 'Z':
+			b.WriteByte(c + 'a' - 'A')
+		default:
+			b.WriteByte(c)
 		}
-		if c >= 'A' && c <= 'Z' {
-			c += 'a' - 'A'
-		}
-		b.WriteByte(c)
 	}
-	s := b.String()
-	parts := strings.Split(s, ";")
+	parts = append(parts, b.String())
 	typ := parts[0]
 	if typ == "" {
 		typ = "text/plain"
@@ -376,7 +392,9 @@ func checkOne(reg registry, in string, wellFormed, validEnc, roomy bool) (kind, 
 
 var headers = []string{"", "text/plain", "TEXT/Plain", "text/css", "image/svg+xml", "application/octet-stream", ";charset=us-ascii", ";charset=US-ASCII", ";charset=utf-8",
 	"text/plain;charset=us-ascii", "text/plain;charset=utf-8", "text/css;charset=us-ascii", "text/css;a=b", "text/plain;a=b;charset=us-ascii", "text/plain;charset=us-ascii;a=b",
-	"text/plain;charset=us-asciix", "text/plainx", "text/css;charset=US-ASCII;charset=us-ascii", "Image/SVG+xml;a=B"}
+	"text/plain;charset=us-asciix", "text/plainx", "text/css;charset=US-ASCII;charset=us-ascii", "Image/SVG+xml;a=B",
+	// quoted parameter values: a ; inside them does not start a parameter, their case and white space are kept
+	`text/css;x="a;charset=us-ascii;b"`, `text/css;x="q";charset=us-ascii`, `text/css;x="a\";charset=us-ascii;b"`, `text/css;charset=us-ascii;x="A; B"`, `text/plain;x="text/plain;charset=us-ascii"`}
 
 var headersSloppy = []string{" text/plain ", "text/plain ; a = b ", "text/css ;charset=us-ascii", " ; charset=utf-8"}
 
